@@ -66,11 +66,12 @@ Record case := {
   c_clients : list (cquery * obs);
   c_files : list (string * string);
   c_parse : list (string * cli_req);        (* the proto texts the harness rendered *)
+  c_wire : list (string * cquery);          (* ... and the prefix/path each one spells, in its encoding *)
   c_cli : list cli_run
 }.
-Definition Case cfg ss p1 seen cls fs ps cli : case :=
+Definition Case cfg ss p1 seen cls fs ps ws cli : case :=
   {| c_cfg := cfg; c_streams := ss; c_phase1 := p1; c_seen := seen; c_clients := cls;
-     c_files := fs; c_parse := ps; c_cli := cli |}.
+     c_files := fs; c_parse := ps; c_wire := ws; c_cli := cli |}.
 
 (** ** comparison *)
 
@@ -240,10 +241,26 @@ Definition cquery_of_req (r : cli_req) : option cquery :=
   | [] => None
   end.
 
+(** the text gnmi_cli parses (as [cli_request] picks it) *)
+Definition cli_text (c : case) (a : cli_args) : string :=
+  match proto_request_from_flags (fun f => assoc f (c_files c)) a with
+  | inl (Some s) => if defect_C01_2 then a_proto a else s
+  | _ => ""
+  end.
+
+(** the subscription the collector receives: for a proto style, prefix and
+    path exactly as the text spells them (elem / element / prefix origin); the
+    model resolves that encoding itself ([sub_query], [complete_path]) *)
+Definition wire_query (c : case) (a : cli_args) (r : cli_req) : option cquery :=
+  match assoc (cli_text c a) (c_wire c) with
+  | Some q => Some q
+  | None => cquery_of_req r
+  end.
+
 Definition model_cli (c : case) (a : cli_args) : option view :=
   match cli_request (fun s => assoc s (c_parse c)) (fun f => assoc f (c_files c)) a with
   | CliReq r =>
-      match cr_mode r, cquery_of_req r with
+      match cr_mode r, wire_query c a r with
       | MOnce, Some q => Some (pipeline_once (c_cfg c) (c_streams c) q)
       | _, _ => None                       (* outside the model *)
       end
